@@ -86,8 +86,16 @@ def search(job):
                                 return {"failures": out, "tried": tried}
         # base-URI arrangements: root id, nested id on the path, relative and absolute references, store documents, handler
         store = {"http://ex.org/other.json": {"definitions": {"t": {"type": "integer"}}, idk: "http://ex.org/other.json"},
+                 # a document whose root declares a *relative* id and which refers into itself
+                 "http://ex.org/dir/doc.json": {idk: "doc.json", "properties": {"j": {"$ref": "#/definitions/t"}}, "definitions": {"t": {"type": "integer"}}},
+                 "http://ex.org/anch.json": {"definitions": {"a": {idk: "#A", "properties": {"j": {"$ref": "#/definitions/t"}}}, "t": {"type": "integer"}}},
                  "http://ex.org/dir/sub.json": {"type": "string"},
                  "http://ex.org/item.json": {"type": "boolean"}}
+        store_cases = [
+            ({"properties": {"k": {"$ref": "http://ex.org/dir/doc.json"}}}, {"properties": {"k": {"properties": {"j": {"type": "integer"}}}}}),
+            ({idk: "http://ex.org/root.json", "properties": {"k": {"$ref": "dir/doc.json"}}}, {"properties": {"k": {"properties": {"j": {"type": "integer"}}}}}),
+            ({"properties": {"k": {"$ref": "http://ex.org/anch.json#/definitions/a"}}}, {"properties": {"k": {"properties": {"j": {"type": "integer"}}}}}),
+        ]
         cases = [
             ({idk: "http://ex.org/root.json", "properties": {"k": {"$ref": "other.json#/definitions/t"}}}, {"properties": {"k": {"type": "integer"}}}),
             ({idk: "http://ex.org/root.json", "properties": {"k": {"$ref": "http://ex.org/other.json#/definitions/t"}}}, {"properties": {"k": {"type": "integer"}}}),
@@ -102,7 +110,7 @@ def search(job):
             ({"definitions": {"node": {"type": "object", "properties": {"next": {"$ref": "#/definitions/node"}, "v": {"type": "integer"}}}}, "$ref": "#/definitions/node"}, None),
         ]
         insts = [{"k": 1}, {"k": "s"}, {"k": {"j": 1}}, {"k": {"j": "s"}}, {"k": True, "l": "x"}, {"k": {"k": {"k": 5}}}, {"next": {"next": {"v": "x"}}, "v": 1}, 5]
-        for with_ref, inlined in cases:
+        for with_ref, inlined in cases + store_cases:
             for inst in insts:
                 tried += 1
                 res = validators.RefResolver.from_schema(with_ref, id_of=cls.ID_OF, store=copy.deepcopy(store))
@@ -113,7 +121,7 @@ def search(job):
                         report(draft=d, schema=with_ref, inlined=inlined, instance=inst, problem="with $ref: %r, written in place: %r" % (a, b))
                 elif a in ("RefResolutionError", "RecursionError") or (isinstance(a, str) and a.startswith("EXC")):
                     # nested-id case: the reference under the nested id must resolve in the *retrieved* dir/ document, i.e. RefResolutionError is legitimate there
-                    if "dir/" in json.dumps(with_ref) and a == "RefResolutionError":
+                    if '"dir/"' in json.dumps(with_ref) and a == "RefResolutionError":
                         continue
                     report(draft=d, schema=with_ref, instance=inst, problem="recursive / local reference gave %r" % (a,))
                 if len(out) >= limit:
